@@ -181,7 +181,18 @@ void World::do_op(const J &op)
 		Addr src = v6 ? h->ip6 : h->ip4;
 		if (op.has("spoof_ip")) src = Addr::v4(op.gets("spoof_ip").c_str(), 0);
 		src.port = (uint16_t)op.geti("sport", 4000);
-		S.inject(src, h->id, dst, unhex(op.gets("hex")));
+		Bytes payload = unhex(op.gets("hex"));
+		if (op.getb("unmatched") && payload.size() >= 2) {
+			// an off-path spoofer cannot know the ids in flight: make sure this one is none of the target's recent (or next) ids
+			auto &ids = recent_ids[to];
+			for (int guard = 0; guard < 64; guard++) {
+				uint16_t id = (uint16_t)((payload[0] << 8) | payload[1]); bool hit = false;
+				for (auto x : ids) for (int k = 0; k <= 3; k++) if ((uint16_t)(x + 7727 * k) == id) hit = true;
+				if (!hit) break;
+				id = (uint16_t)(id * 31 + 12345); payload[0] = id >> 8; payload[1] = id & 255;
+			}
+		}
+		S.inject(src, h->id, dst, payload);
 		S.count("op.dgram");
 	}
 }
@@ -301,6 +312,12 @@ struct WorldTracker : Monitor {
 			struct in_addr ia;
 			if (inet_pton(AF_INET, a1, &ia) == 1) { c->tun_ip = a1; c->tun_ip_h = ntohl(ia.s_addr); }
 		}
+	}
+	void on_send(const Dgram &d, Sock *s) override
+	{
+		if (!s || !s->owner || s->owner == w->srv || d.data.size() < 2 || d.dst.port != 53) return;
+		auto &q = w->recent_ids[s->owner->name];
+		q.push_back((uint16_t)((d.data[0] << 8) | d.data[1])); if (q.size() > 4) q.pop_front();
 	}
 	void on_block(Task &t) override
 	{
